@@ -151,6 +151,16 @@ def _overlap(a: dict, b: dict) -> bool:
     return a["start"] < _end(b) and b["start"] < _end(a)
 
 
+def _shutdown_may_hit(f: dict, s: dict, t_up: int, owned_schedule: bool) -> bool:
+    """can shutdown call `s` have stopped serve_forever call `f` before it came up?  On the virtual loop a shutdown acts at
+    the instant it is called, so it must have been issued while `f` was starting.  A standalone shutdown() first waits
+    for the server's bootstrap lock, so a call issued *before* `f` started may act while `f` is starting: any overlap of the
+    two intervals counts there (found by the thorough tier: serve / shutdown / shutdown / serve from three threads)."""
+    if owned_schedule:
+        return f["start"] < s["start"] < t_up
+    return s["start"] < t_up and _end(s) > f["start"]
+
+
 def check_history(
     recs: list[dict], *, owned_schedule: bool, details: dict, init_stamps: list[int] | None = None, skipped: list[str] | None = None
 ) -> None:
@@ -185,7 +195,7 @@ def check_history(
             accepted = ("ServerClosedError", "ServerAlreadyRunning") if others else ("ServerClosedError",)
             # a shutdown issued while this call was still starting cancels it before it reaches the closed check: it then
             # returns normally without having served, which is a refusal to serve as far as the statement goes
-            cancelled_by_shutdown = res == "ok" and f["up"] is None and any(f["start"] < s["start"] < _end(f) for s in shutdowns)
+            cancelled_by_shutdown = res == "ok" and f["up"] is None and any(_shutdown_may_hit(f, s, _end(f), owned_schedule) for s in shutdowns)
             if res not in accepted and not cancelled_by_shutdown:
                 fail(
                     "served-after-close",
@@ -197,7 +207,7 @@ def check_history(
             fail("served-after-close", f"serve_forever #{f['i']} came up after server_close #{closed_before[0]['i']} had completed", op=f["i"])
         if res == "ok" and f["up"] is None:
             t_up = _end(f)
-            excused = any(c["start"] < t_up for c in closes_ok) or any(f["start"] < s["start"] < t_up for s in shutdowns)
+            excused = any(c["start"] < t_up for c in closes_ok) or any(_shutdown_may_hit(f, s, t_up, owned_schedule) for s in shutdowns)
             if not excused:
                 fail(
                     "never-served",
